@@ -570,6 +570,8 @@ func runC20(r *Run, rng *Rng, replay string) {
 	c20deepen(r, rng, thorough)
 	// 9. deepening round 2: multi-range layer, merged-cell redirect
 	c20deepen2(r, rng, thorough)
+	// 10. column ranges, lookup paths on sheets with merged cells
+	c20deepen3(r, rng, thorough)
 	for _, s := range r.opsSample(10) {
 		r.Sample(s)
 	}
